@@ -37,7 +37,11 @@ class Potential_Form_Registry(object):
 
     try:
       definitions = cfg.potential_form
-      self._potential_forms.update(self._build_potential_forms(definitions))
+      custom_forms = self._build_potential_forms(definitions)
+      for label in custom_forms:
+        if label in self._potential_forms:
+          raise Potential_Form_Registry_Exception("The [Potential-Form] entry '{0}' has the same label as a table form or a standard potential form".format(label))
+      self._potential_forms.update(custom_forms)
       self._definitions = definitions
     except ConfigParserMissingSectionException:
       definitions = []
@@ -90,8 +94,8 @@ class Potential_Form_Registry(object):
     builder = Table_Form_Builder()
 
     for d in definitions:
-      if d.name in self._potential_forms:
-        raise Potential_Form_Registry_Exception("Two potential forms have the same label in [Potential-Form] section: '{0}'".format(d.signature.label))
+      if d.name in self._potential_forms or d.name in table_forms:
+        raise Potential_Form_Registry_Exception("The table form '{0}' has the same label as another potential form".format(d.name))
 
       pf = builder.create_potential_form(d)
       table_forms[d.name] = pf
